@@ -1,2 +1,237 @@
-(* C17 (theorems to follow) *)
-From Coq Require Import List.
+(* C17: validation passes exactly the valid records and accounts for every invalid one.
+   ONLY the property theorems (each closed by `exact`) and their non-vacuity examples.
+
+   Vocabulary (Validation/Model.v):
+     validate : R -> vresult E        the user's `Validate::validate` (VOk | VErr errors)
+     run_parts validate m hc ps       the validation operator applied to every partition of ps
+                                      (sequential engine: ps = [input]; parallel: any chunking),
+                                      Ok (per-partition (valid rows, appends)) or Panic
+     output_of rs                     what collect_* returns (concatenation in partition order)
+     interleaving (logs_of rs) coll   coll is a possible final content of the shared
+                                      ErrorCollector: any shuffle of the per-partition append
+                                      sequences that keeps each partition's own order
+   All statements hold for every record type, every `validate`, every partitioning `ps` of the
+   input and every interleaving. *)
+From Coq Require Import List ZArith Bool Permutation.
+From IB Require Import Engine.Val Engine.Ops Engine.Nodes Engine.Planner
+                       Validation.Model Validation.Pipe Proofs.ValidationProofs.
+Import ListNotations.
+Local Open Scope nat_scope.
+
+(* ---------- output = filter valid, exact order, any partitioning ---------- *)
+Theorem c17_output_is_filter_valid :
+  forall (R E : Type) (validate : R -> vresult E) (m : mode) (has_collector : bool)
+         (input : list R) (ps : list (list R)),
+    concat ps = input -> m <> FailFast ->
+    exists rs, run_parts validate m has_collector ps = Ok rs /\
+               output_of rs = filter (is_valid validate) input.
+Proof. exact output_is_filter_valid_input. Qed.
+
+(* keyed operator (the validate_values family): rows are kept whole, validity is that of the value *)
+Theorem c17_output_is_filter_valid_keyed :
+  forall (K V E : Type) (validate : V -> vresult E) (m : mode) (has_collector : bool)
+         (input : list (K * V)) (ps : list (list (K * V))),
+    concat ps = input -> m <> FailFast ->
+    exists rs, run_parts_values validate m has_collector ps = Ok rs /\
+               output_of rs = filter (fun kv => is_valid validate (snd kv)) input.
+Proof. exact output_is_filter_valid_keyed. Qed.
+
+Example c17_output_is_filter_valid_ex :
+  exists rs, run_parts validate_z LogAndContinue true [[4; 5]; [8; 2; 12]; []]%Z = Ok rs /\
+             output_of rs = [4; 8; 12]%Z /\
+             filter (is_valid validate_z) [4; 5; 8; 2; 12]%Z = [4; 8; 12]%Z.
+Proof. eexists. split; [vm_compute; reflexivity|]. split; vm_compute; reflexivity. Qed.
+
+Example c17_output_is_filter_valid_keyed_ex :
+  exists rs, run_parts_values validate_z SkipInvalid false
+                              [[(1, 4); (2, 5)]; [(1, 6); (3, 8)]]%Z = Ok rs /\
+             output_of rs = [(1, 4); (3, 8)]%Z.
+Proof. eexists. split; vm_compute; reflexivity. Qed.
+
+(* ---------- log mode: the collector, for ANY interleaving ----------
+   (1) the collector is, as a multiset, exactly the entries (partition-local position, errors) of
+       the invalid records of every partition;
+   (2) hence its errors payloads are, as a multiset, exactly [errors r | r in input, r invalid]:
+       one entry per invalid record, carrying that record's errors;
+   (3) error_count = number of invalid records;  (4) |output| + error_count = |input|. *)
+Theorem c17_log_accounting :
+  forall (R E : Type) (validate : R -> vresult E) (input : list R) (ps : list (list R))
+         (rs : list (list R * list (entry E))) (coll : list (entry E)),
+    concat ps = input ->
+    run_parts validate LogAndContinue true ps = Ok rs ->
+    interleaving (logs_of rs) coll ->
+    Permutation coll (flat_map (local_entries validate) ps) /\
+    Permutation (map (@e_errors E) coll) (invalid_errors validate input) /\
+    length coll = count_invalid validate input /\
+    length (output_of rs) + length coll = length input.
+Proof. exact log_accounting_input. Qed.
+
+Theorem c17_log_accounting_keyed :
+  forall (K V E : Type) (validate : V -> vresult E) (input : list (K * V))
+         (ps : list (list (K * V))) (rs : list (list (K * V) * list (entry E)))
+         (coll : list (entry E)),
+    concat ps = input ->
+    run_parts_values validate LogAndContinue true ps = Ok rs ->
+    interleaving (logs_of rs) coll ->
+    Permutation (map (@e_errors E) coll)
+                (invalid_errors validate (map snd input)) /\
+    length coll = count_invalid validate (map snd input) /\
+    length (output_of rs) + length coll = length input.
+Proof. exact log_accounting_keyed. Qed.
+
+(* What the record identifier of an entry is. `record_{idx}` / `pair_{idx}` is the position of
+   the record in the PARTITION the operator instance saw, not in the input. Guaranteed:
+   every entry (idx, errors) is explained by a record at position idx of some partition whose
+   validation returned exactly these errors, and every invalid record of every partition has its
+   entry. Identifiers may therefore repeat across partitions (see the example); they are global
+   positions only when there is a single partition (sequential engine), where the collector is
+   moreover in input order. *)
+Theorem c17_log_record_ids :
+  forall (R E : Type) (validate : R -> vresult E) (ps : list (list R))
+         (rs : list (list R * list (entry E))) (coll : list (entry E)),
+    run_parts validate LogAndContinue true ps = Ok rs ->
+    interleaving (logs_of rs) coll ->
+    (forall e, In e coll ->
+               exists p r, In p ps /\ nth_error p (e_idx e) = Some r /\
+                           validate r = VErr (e_errors e)) /\
+    (forall p i r es, In p ps -> nth_error p i = Some r -> validate r = VErr es ->
+                      In (mk_entry i es) coll).
+Proof. exact (@log_record_ids). Qed.
+
+Theorem c17_log_sequential_exact :
+  forall (R E : Type) (validate : R -> vresult E) (input : list R)
+         (rs : list (list R * list (entry E))) (coll : list (entry E)),
+    run_parts validate LogAndContinue true [input] = Ok rs ->
+    interleaving (logs_of rs) coll ->
+    coll = local_entries validate input /\ output_of rs = filter (is_valid validate) input.
+Proof. exact (@log_sequential_exact). Qed.
+
+(* two partitions, the second one's appends overtaking the first one's: still one entry per
+   invalid record; both invalid records are `record_1` of their partition *)
+Example c17_log_accounting_ex :
+  let ps := [[4; 5]; [8; 2; 12]]%Z in
+  let coll := [mk_entry 1 [8; 9]; mk_entry 1 [20]]%Z in
+  exists rs, run_parts validate_z LogAndContinue true ps = Ok rs /\
+             interleaving (logs_of rs) coll /\
+             logs_of rs = [[mk_entry 1 [20]]; [mk_entry 1 [8; 9]]]%Z /\
+             invalid_errors validate_z (concat ps) = [[20]; [8; 9]]%Z /\
+             count_invalid validate_z (concat ps) = 2 /\
+             length (output_of rs) + length coll = length (concat ps).
+Proof.
+  eexists. split; [vm_compute; reflexivity|]. split.
+  - cbn [logs_of map snd].
+    apply (il_step [[mk_entry 1 [20%Z]]] (mk_entry 1 [8; 9]%Z) [] []). cbn [app].
+    apply (il_step [] (mk_entry 1 [20%Z]) [] [[]]). cbn [app].
+    apply il_done. repeat constructor.
+  - repeat split; vm_compute; reflexivity.
+Qed.
+
+Example c17_log_sequential_exact_ex :
+  exists rs, run_parts validate_z LogAndContinue true [[4; 5; 8; 2; 12]%Z] = Ok rs /\
+             logs_of rs = [[mk_entry 1 [20]; mk_entry 3 [8; 9]]]%Z /\
+             local_entries validate_z [4; 5; 8; 2; 12]%Z = [mk_entry 1 [20]; mk_entry 3 [8; 9]]%Z.
+Proof. eexists. repeat split; vm_compute; reflexivity. Qed.
+
+(* there always is an interleaving (e.g. partition after partition), so the statements above are
+   not vacuous for any run *)
+Theorem c17_interleaving_exists :
+  forall (A : Type) (ls : list (list A)), interleaving ls (concat ls).
+Proof. exact interleaving_concat. Qed.
+
+(* ---------- skip mode, fail-fast mode and log mode without a collector write nothing ---------- *)
+Theorem c17_skip_collects_nothing :
+  forall (R E : Type) (validate : R -> vresult E) (m : mode) (has_collector : bool)
+         (ps : list (list R)) (rs : list (list R * list (entry E))) (coll : list (entry E)),
+    (m = LogAndContinue -> has_collector = false) ->
+    run_parts validate m has_collector ps = Ok rs ->
+    interleaving (logs_of rs) coll -> coll = [].
+Proof. exact (@nothing_collected). Qed.
+
+Example c17_skip_collects_nothing_ex :
+  exists rs, run_parts validate_z SkipInvalid true [[1; 4]; [2]]%Z = Ok rs /\
+             output_of rs = [4]%Z /\ logs_of rs = [[]; []].
+Proof. eexists. repeat split; vm_compute; reflexivity. Qed.
+
+(* ---------- fail-fast: the run panics iff some record is invalid; else output = input ---------- *)
+Theorem c17_fail_fast_iff :
+  forall (R E : Type) (validate : R -> vresult E) (has_collector : bool) (ps : list (list R)),
+    (run_parts validate FailFast has_collector ps = Panic <->
+     exists r, In r (concat ps) /\ is_valid validate r = false) /\
+    ((forall r, In r (concat ps) -> is_valid validate r = true) ->
+     exists rs, run_parts validate FailFast has_collector ps = Ok rs /\
+                output_of rs = concat ps /\
+                forall coll, interleaving (logs_of rs) coll -> coll = []) /\
+    (run_parts validate FailFast has_collector ps = Panic \/
+     exists rs, run_parts validate FailFast has_collector ps = Ok rs).
+Proof. exact (@fail_fast_iff). Qed.
+
+Example c17_fail_fast_iff_ex :
+  run_parts validate_z FailFast false [[4; 8]; [12; 3]]%Z = Panic /\
+  (exists rs, run_parts validate_z FailFast false [[4; 8]; [12; 16]]%Z = Ok rs /\
+              output_of rs = [4; 8; 12; 16]%Z).
+Proof. split; [vm_compute; reflexivity|]. eexists. split; vm_compute; reflexivity. Qed.
+
+(* ---------- the planner never moves a validation operator ----------
+   flags as in src/helpers/validation.rs: ValidateOp (kp, vo, rs, cost) = (f, f, f, 10),
+   ValidateValuesOp = (t, t, f, 10). The reorder pass sorts a fused block only if ALL its
+   operators are value-only, key-preserving and reorder-safe; so any block that contains an
+   operator that is not reorder-safe -- in particular a validation operator -- is left exactly as
+   written, and so is every chain made of such blocks. *)
+Theorem c17_validate_not_reordered :
+  (forall (E : Type) (t : tag) (v : val -> vresult E) (m : mode) (hc : bool) (uid : nat),
+      (op_kp (op_validate t v m hc uid), op_vo (op_validate t v m hc uid),
+       op_rs (op_validate t v m hc uid), op_cost (op_validate t v m hc uid))
+      = (false, false, false, 10) /\
+      (op_kp (op_validate_values t v m hc uid), op_vo (op_validate_values t v m hc uid),
+       op_rs (op_validate_values t v m hc uid), op_cost (op_validate_values t v m hc uid))
+      = (true, true, false, 10)) /\
+  (forall ops, (exists o, In o ops /\ op_rs o = false) -> reorder_ops ops = ops) /\
+  (forall pre o post, is_validation_op o -> reorder_ops (pre ++ o :: post) = pre ++ o :: post) /\
+  (forall c,
+      Forall (fun n => match n with
+                       | NB (BStateless ops) => exists o, In o ops /\ op_rs o = false
+                       | _ => True
+                       end) c ->
+      reorder c = c).
+Proof. exact not_reordered_all. Qed.
+
+(* a block the planner WOULD sort (cost-3 map_values before cost-1 filter_values) stays as written
+   once a validate_values sits in it *)
+Example c17_validate_not_reordered_ex :
+  let mv := op_map_values T_KV T_KV (f_add 1) 0 in
+  let vv := op_validate_values T_KV validate_val LogAndContinue true 1 in
+  let fv := op_filter_values T_KV (p_modne 2 0) 2 in
+  map op_uid (reorder_ops [mv; fv]) = [2; 0] /\
+  map op_uid (reorder_ops [mv; vv; fv]) = [0; 1; 2] /\
+  is_validation_op vv.
+Proof.
+  split; [vm_compute; reflexivity|]. split; [vm_compute; reflexivity|].
+  exists Z, T_KV, validate_val, LogAndContinue, true, 1. right. reflexivity.
+Qed.
+
+(* ---------- combine_validations ----------
+   Exact behaviour: Ok iff no part carries an error (a part `Err(vec![])` contributes nothing);
+   otherwise Err of all errors in order. With the degenerate part `Err(vec![])` excluded this is
+   the property: Ok iff every part is Ok. *)
+Theorem c17_combine_validations :
+  forall (E : Type) (rs : list (vresult E)),
+    (combine_validations rs = VOk <-> (forall r, In r rs -> r = VOk \/ r = VErr [])) /\
+    (~ In (VErr []) rs -> (combine_validations rs = VOk <-> Forall (fun r => r = VOk) rs)) /\
+    (combine_validations rs <> VOk ->
+     combine_validations rs = VErr (flat_map result_errors rs)).
+Proof. exact combine_all. Qed.
+
+Example c17_combine_validations_ex :
+  combine_validations [VOk; VErr [1; 2]; VOk; VErr [3]]%Z = VErr [1; 2; 3]%Z /\
+  combine_validations [VOk; VOk] = @VOk Z /\
+  ~ In (VErr []) [VOk; VErr [1; 2]; VOk; VErr [3]]%Z.
+Proof.
+  split; [reflexivity|]. split; [reflexivity|].
+  intros [H|[H|[H|[H|[]]]]]; discriminate H.
+Qed.
+
+(* known finding C17-combine-empty-err: a failed part without errors is reported as success *)
+Theorem c17_combine_validations_refuted :
+  exists (rs : list (vresult Z)),
+    ~ Forall (fun r => r = VOk) rs /\ combine_validations rs = VOk.
+Proof. exact combine_refuted. Qed.
